@@ -171,6 +171,27 @@ SqlNeutral(body) == \A i \in DOMAIN body : body[i] # SQ
 (***************************************************************************)
 Good(t) == [ok |-> TRUE, text |-> t, rest |-> <<>>]
 WriterLexerInverse(t) == \A i \in DOMAIN Styles : Lex(Styles[i], Write(Styles[i], t)) = Good(t)
+(***************************************************************************)
+(* As built (known findings F-C02d, F-C02j, F-C15a, F-C13c): a multi-line  *)
+(* text that is rendered INSIDE an indented element line shares that       *)
+(* line's indentation.  textwrap.indent prefixes every line that is not    *)
+(* blank-only; the text's first line follows the opening quotes (unless    *)
+(* the renderer breaks the line first) and its last line carries the       *)
+(* closing quotes, so that one is prefixed even when it is blank.  What    *)
+(* comes back is predicted EXACTLY, so that nothing else hides behind the  *)
+(* finding.                                                                *)
+(***************************************************************************)
+Pad(d) == [i \in 1..d |-> SP]
+DriftLines(t, d, first) ==
+  LET ls == SplitLines(t) IN
+  JoinLines([i \in DOMAIN ls |-> IF (i = 1 /\ ~first) \/ (BlankLine(ls[i]) /\ i # Len(ls)) THEN ls[i] ELSE Pad(d) \o ls[i]])
+AsBuiltDrift(site, t) ==
+  CASE site \in {"column_note", "enumitem_note"} -> Norm(DriftLines(t, 4, FALSE))      \* note: '''text''' in a settings list, normalised when parsed
+    [] site = "index_note" -> Norm(DriftLines(t, 8, FALSE))
+    [] site = "project_field" -> DriftLines(t, 4, FALSE)                                \* key: '''text''', not normalised
+    [] site \in {"table_prop", "column_prop", "string_default"} -> <<LF>> \o DriftLines(t, 4, TRUE)   \* '''<line break>text''', not normalised
+    [] site = "index_name" -> <<LF>> \o DriftLines(t, 8, TRUE)
+
 NormIdempotent(t) == HasInk(t) => (HasInk(Norm(t)) /\ Norm(Norm(t)) = Norm(t))
 \* a rendered literal lexes back to the text: exactly for values, up to Norm for notes
 QuoteExact(t) == ~MultiLine(t) => Lex(StyleOf(Quote(t)), Quote(t)) = Good(t)
